@@ -6,6 +6,7 @@ import (
 	"errors"
 	"fmt"
 	"io"
+	"net"
 	"os"
 	"os/signal"
 	"path/filepath"
@@ -69,6 +70,10 @@ func (w *faultWriter) fault() error {
 	}
 	return errInjected
 }
+
+// writeFaultKinds: a destination may report any error value, also ones that mean "end of data" on the
+// read side (an io.Pipe closed by its consumer with CloseWithError(io.EOF), a closed network channel)
+var writeFaultKinds = append(append([]error(nil), faultKinds...), io.EOF, io.ErrUnexpectedEOF, fmt.Errorf("write to peer: %w", io.EOF), os.ErrClosed, net.ErrClosed)
 
 // faultReader delivers the data up to a byte offset and then fails sticky with a non-EOF error.
 // withData=true: the bytes before the offset and the error come in the same call where possible.
@@ -150,7 +155,7 @@ func runC10(c *mon.Ctx) {
 		for _, k := range offsets {
 			for mode := 0; mode < 3; mode++ {
 				short := mode == 1
-				w := &faultWriter{limit: k, short: short, full: mode == 2, err: faultKinds[(k+int(i))%len(faultKinds)]}
+				w := &faultWriter{limit: k, short: short, full: mode == 2, err: writeFaultKinds[(k+int(i))%len(writeFaultKinds)]}
 				var n int64
 				var err error
 				in["fault_offset"], in["short_write"], in["full_count_with_error"], in["error_kind"] = k, short, mode == 2, fmt.Sprintf("%T", w.err)
